@@ -1101,7 +1101,15 @@ where
 
     fn handle_single_key_data_cmd(&self, cmd_ctx: CmdCtx) {
         let mut cmd_ctx = cmd_ctx;
-        match self.compressor.try_compressing_cmd_ctx(&mut cmd_ctx) {
+        // A command forwarded by another proxy of the cluster (UMFORWARD, active redirection)
+        // has already been through the compressor there. Compressing the value a second time
+        // would make every later read return the inner compressed bytes.
+        let compress_result = if cmd_ctx.get_redirection_times().is_some() {
+            Ok(())
+        } else {
+            self.compressor.try_compressing_cmd_ctx(&mut cmd_ctx)
+        };
+        match compress_result {
             Ok(())
             | Err(CompressionError::UnsupportedCmdType)
             | Err(CompressionError::Disabled) => (),
